@@ -100,7 +100,8 @@ def run_model(rep, cfg_text_or_path, label, module="MCPdb.tla", expect=None, wor
     return res
 
 
-def gen_and_replay(rep, cols, gencfg_kw, num, depth, seed, nkeys, nvals, inner_images=0, small=False, label=""):
+def gen_and_replay(rep, cols, gencfg_kw, num, depth, seed, nkeys, nvals, inner_images=0, small=False, label="",
+                   known_damage=False):
     """Generate behaviours with TLC simulation and replay them into the real code."""
     kw = dict(gencfg_kw)
     kw.update(kind=model_kinds(cols), nkeys=nkeys, nvals=nvals, fine=False, gen=True, genlen=depth,
@@ -128,12 +129,25 @@ def gen_and_replay(rep, cols, gencfg_kw, num, depth, seed, nkeys, nvals, inner_i
         if r["nontrivial"]:
             rep.nontrivial.add(vcore.beh_hash(b))
         for v in r["violations"]:
+            if v["what"].startswith("harness:"):
+                raise ToolError("replay harness cannot follow the behaviour: %s (behaviour %d of %s)" % (v["what"], r["i"], label))
             ctx = json.dumps(b[: v.get("step", len(b))])
+            if known_damage:
+                st = b[v.get("step", 1) - 1] if 0 < v.get("step", 0) <= len(b) else {}
+                if st.get("a") == "Reopen" and st.get("dmg") in ("headgap", "regress") and "panic" not in v["what"]:
+                    k = [k for k in vcore.load_known() if k.get("id") == "F12"]
+                    if k:
+                        rep.extra["F12_reproduced_on_real_code"] = rep.extra.get("F12_reproduced_on_real_code", 0) + 1
+                        if "F12" not in [h[0] for h in rep.known_hits]:
+                            rep.known_hits.append(("F12", k[0]["what"] + " [replayed: %s, %s]" % (st.get("dmg"), v["what"][:120])))
+                        continue
             rep.violation("%s [cols=%s, step %s %s]" % (v["what"], model_kinds(cols), v.get("step"), v.get("a")),
                           {"kind": "pdb-replay", "cols": cols, "nkeys": nkeys, "nvals": nvals, "seed": seed,
                            "index": r["i"], "inner_images": inner_images, "small": small, "behaviour": b},
                           ctx=ctx)
     rep.extra["crash_images_opened"] = rep.extra.get("crash_images_opened", 0) + images
+    rep.extra["behaviours_diverged_within_bounds"] = rep.extra.get("behaviours_diverged_within_bounds", 0) + \
+        sum(1 for r in results if r.get("diverged"))
     if behs:
         b = behs[0]
         rep.sample({"cols": cols, "behaviour": [dict((k, v) for k, v in e.items() if k not in ("alts",)) for e in b[:12]]})
@@ -560,4 +574,105 @@ def c12(tier):
                                reads=100)
     if rep.extra.get("trace_events_validated", 0) == 0:
         raise ToolError("no events validated")
+    return rep.finish()
+
+
+# ---------------------------------------------------------------------------
+# C13: damaged logs
+
+@check("C13")
+def c13(tier):
+    rep = Report("C13", tier)
+    rep.rule = ("TLC: after a crash the log files are damaged in every abstract way (truncation at or inside any record, an "
+                "invalid record anywhere, a missing file; <=2 damages), recovery must expose a prefix not older than what "
+                "the tables held; behaviours with damage steps are generated by TLC and concretized on the real log files "
+                "(record boundaries from the EndRecord hook: truncation at a random byte inside the record, a random bit "
+                "flipped inside the record, file removed), the real open must not panic and must yield exactly the model's "
+                "prefix; non-trivial = damage applied to an image holding >= 1 unapplied record. Two damage classes the "
+                "design cannot handle (DamageClass headgap / regress in Pdb.tla) are excluded from the general pool and "
+                "exercised in a dedicated pool as known findings")
+    rep.assumptions = ["the tables of the damaged image hold a clean prefix (damage is to the logs, records applied atomically "
+                       "at stepping granularity)", "CRC32 detects the injected single-bit flips"]
+    vcore.build_harness()
+    thorough = tier == "thorough"
+    inv = ("TypeOK", "RecoveredIsPrefix", "NotOlderThanTables", "ReadLatest")
+    kw = dict(kind="h", nkeys=2, nvals=1, maxcalls=3, maxops=1, maxcrash=1, maxaux=2, fine=False,
+              feat=("crash", "corrupt", "safe_damage"), view="ViewNoTrace", invariants=inv)
+    run_model(rep, pdb_cfg(**kw), "MC_C13(h,2 keys,3 calls,2 damages)", timeout=3400)
+    # crashes alone never produce the two damage classes
+    run_model(rep, pdb_cfg(**dict(kw, feat=("crash", "crashrec"), fine=True, maxcalls=2, maxops=2, maxcrash=2,
+                                  invariants=("TypeOK", "NoNaturalDamage"))), "MC_C13_NoNaturalDamage")
+    if thorough:
+        run_model(rep, pdb_cfg(**dict(kw, kind="hr", nkeys=1, maxcalls=4, maxcrash=2)),
+                  "MC_C13(hr,4 calls,2 crashes,2 damages)", timeout=3400)
+    # the known findings at design level: without the exclusion TLC must find them
+    known = {k["id"]: k for k in vcore.load_known() if k.get("property") == "C13"}
+    res = vcore.tlc_check("MCPdb.tla", write_cfg(pdb_cfg(**dict(kw, feat=("crash", "corrupt")))), timeout=1800)
+    rep.add_model(res, "MC_C13_all_damage")
+    if res["ok"]:
+        log("[tlc] MC_C13_all_damage passes: the known damage classes no longer violate the model")
+    elif "F12" in known:
+        rep.known_hits.append(("F12", known["F12"]["what"] + " [model: %s]" % res["violated"]))
+    else:
+        rep.violation("TLC: %s violated with unrestricted damage" % res["violated"],
+                      {"kind": "model", "cfg": "MC_C13_all_damage", "tlc_tail": res["out"][-6000:]})
+    colsets = [
+        [{"kind": "hash"}, {"kind": "rc"}],
+        [{"kind": "btree"}, {"kind": "hash", "uniform": True}],
+    ]
+    num = 400 if thorough else 80
+    ncorrupt = 0
+    for i, cols in enumerate(colsets):
+        behs, results = gen_and_replay(rep, cols, dict(feat=("crash", "corrupt", "restart", "safe_damage"), maxops=3,
+                                                       maxcrash=4, maxaux=6,
+                                                       invariants=("RecoveredIsPrefix", "NotOlderThanTables")),
+                                       num, 36, SEED + 77 + i * 19, 2, 2, small=(i == 0), label="c13_%d" % i)
+        ncorrupt += sum(1 for b in behs for e in b if e.get("a", "").startswith("Corrupt"))
+    rep.extra["damage_steps_replayed"] = ncorrupt
+    if ncorrupt == 0:
+        raise ToolError("no damage step generated: vacuous")
+    # dedicated pool: unrestricted damage; a violation at a Reopen whose damage class (computed by the model) is
+    # headgap/regress is the known finding, anything else is reported
+    gen_and_replay(rep, colsets[0], dict(feat=("crash", "corrupt"), maxops=2, maxcrash=4, maxaux=6, invariants=("TypeOK",)),
+                   num, 30, SEED + 5, 2, 2, small=True, label="c13_known", known_damage=True)
+    return rep.finish()
+
+
+# ---------------------------------------------------------------------------
+# C16: I/O errors
+
+@check("C16")
+def c16(tier):
+    rep = Report("C16", tier)
+    rep.rule = ("TLC: an I/O failure can stop any pipeline step part-way (append with or without a torn record, enact after "
+                "any subset of the record's writes, sync/truncate), the handle enters the error state: reads keep "
+                "returning the latest committed values, commits are refused, drop + reopen yields a prefix containing "
+                "everything synced before; behaviours replayed with real injected failures (the n-th file operation of the "
+                "step fails, n random) and syscall-level errno injection in threaded runs; non-trivial = failure with a "
+                "non-empty pipeline")
+    rep.assumptions = ["failures are injected at the try_io! sites (instrumentation feature) and at the interposed libc "
+                       "calls; the failing step's error is handed to store_err as a worker would do"]
+    vcore.build_harness()
+    thorough = tier == "thorough"
+    inv = ("TypeOK", "ReadLatest", "RecoveredIsPrefix", "SyncedSurvive")
+    kw = dict(kind="h", nkeys=2, nvals=1, maxcalls=3, maxops=1, maxcrash=1, fine=False,
+              feat=("iofail", "crash", "reject"), view="ViewNoTrace", invariants=inv)
+    run_model(rep, pdb_cfg(**kw), "MC_C16(h,2 keys,3 calls)", timeout=3400)
+    if thorough:
+        run_model(rep, pdb_cfg(**dict(kw, kind="hr", nkeys=1, maxops=2)), "MC_C16(hr,3 calls,2 ops)", timeout=3400)
+    colsets = [
+        [{"kind": "hash"}, {"kind": "rc"}],
+        [{"kind": "btree"}, {"kind": "hash", "uniform": True}],
+        [{"kind": "hash", "comp": "lz4", "threshold": 0}, {"kind": "btree_rc"}],
+    ]
+    num = 400 if thorough else 70
+    nfail = 0
+    for i, cols in enumerate(colsets):
+        behs, results = gen_and_replay(rep, cols, dict(feat=("iofail", "crash", "reject", "restart"), maxops=3, maxcrash=3,
+                                                       invariants=("ReadLatest", "RecoveredIsPrefix", "SyncedSurvive")),
+                                       num, 30, SEED + 177 + i * 23, 2, 2, small=(i != 1), label="c16_%d" % i)
+        nfail += sum(1 for b in behs for e in b if e.get("a", "").startswith("IoFail"))
+    rep.extra["failure_steps_replayed"] = nfail
+    if nfail == 0:
+        raise ToolError("no failure step generated: vacuous")
     return rep.finish()
